@@ -219,8 +219,18 @@ def gen_value(R, a, pool, mult=None):
         if kind_fixed == 'str':
             return rstr(R) + 'x'
         return gen_scalar(R, a, pool)
+    if a.multidimensional and R.random() < 0.5:
+        return nest(R, one)
     vals = [one() for _ in range(mult)]
-    if a.multidimensional and mult in (2, 4, 6) and R.random() < 0.6:
-        half = mult // 2
-        return [vals[:half], vals[half:]]
     return vals
+
+
+def nest(R, one):
+    """a regular nested list of depth 2..4 (shape chosen at random), e.g. 2 samples of 2x3 arrays"""
+    shape = R.choice([(2, 1), (1, 2), (2, 2), (3, 2), (2, 2, 2), (2, 3, 2), (1, 2, 3), (2, 1, 2, 2), (2, 2, 1)])
+
+    def build(sh):
+        if len(sh) == 1:
+            return [one() for _ in range(sh[0])]
+        return [build(sh[1:]) for _ in range(sh[0])]
+    return build(shape)
